@@ -30,6 +30,12 @@ nothing is evaluated:
   split_chain_loops     `for T in chain(A, B): S` -> the loop over A followed by the loop over B;  `for c, x in zip(repeat(K), X)` -> the
                         loop over X with c = K
 
+  inline_context_managers  (opt-in) `with CM(..) as v: B` -> what entering CM does; v = ..; B; what leaving it does  (contextlib.nullcontext,
+                        @contextmanager generators with one yield, small classes with __enter__/__exit__ whose fields become locals)
+
+  inline_local_objects  (opt-in) `x = C(..)` with C a small class of the module, x used only as x.method(..) / x.field -> constructor and
+                        methods inlined, the fields as locals x__field
+
 A transformation that cannot be applied safely (re-assigned names, break/continue, *args, generators, early returns) leaves the
 code as it is; the rules then see the original spelling."""
 from __future__ import annotations
@@ -411,7 +417,8 @@ class _StaticComps(ast.NodeTransformer):
             return n
         if isinstance(f, ast.Name) and f.id in ("all", "any"):
             if len(elts) == 1:
-                return n
+                # all([a == b]) is a == b (a comparison already is a truth value); any other single operand stays (all(x) is bool(x), not x)
+                return elts[0] if isinstance(elts[0], ast.Compare) else n
             return ast.copy_location(ast.BoolOp(op=ast.And() if f.id == "all" else ast.Or(), values=elts), n)
         if isinstance(f, ast.Name) and f.id == "tuple":
             return ast.copy_location(ast.Tuple(elts=elts, ctx=ast.Load()), n)
@@ -3326,6 +3333,354 @@ def split_chain_loops(func):
         return out
     func.body = block(func.body) or [ast.Pass()]
     return ast.fix_missing_locations(func)
+
+
+# ------------------------------------------------------------------------------------------------ context managers (opt-in pass)
+
+def _is_cm_decorator(d) -> bool:
+    return ast.unparse(d).split(".")[-1] == "contextmanager"
+
+
+def _relocate(stmts, like, end: bool = False):
+    """the inlined statements stand where the `with` stands (its last line for what runs on leaving the block)"""
+    line = (getattr(like, "end_lineno", None) or like.lineno) if end else like.lineno
+    for st in stmts:
+        for n in ast.walk(st):
+            if hasattr(n, "lineno"):
+                n.lineno = n.end_lineno = line
+                n.col_offset = n.end_col_offset = 0
+        ast.fix_missing_locations(st)
+        for n in ast.walk(st):
+            if not hasattr(n, "lineno") and isinstance(n, (ast.stmt, ast.expr)):
+                n.lineno = n.end_lineno = line
+    return stmts
+
+
+class _SelfFields(ast.NodeTransformer):
+    """`<obj>.X` -> the local `<obj>_X`: the fields of an object that never leaves the function are locals"""
+
+    def __init__(self, obj):
+        self.obj = obj
+
+    def visit_Attribute(self, n):
+        self.generic_visit(n)
+        if isinstance(n.value, ast.Name) and n.value.id == self.obj:
+            return ast.copy_location(ast.Name(id=f"{self.obj}_{n.attr}", ctx=n.ctx), n)
+        return n
+
+
+def _cm_parts(call, resolve):
+    """(entry statements, value bound by `as` | None, exit statements) equal to entering / leaving (without an exception) the
+    context manager built by `call`, or None.  Understood: contextlib.nullcontext(); a @contextmanager generator function with one
+    top-level `yield`; a class with __enter__ / __exit__ (and an optional __init__) whose methods use the instance only through its
+    fields -- the instance lives in fresh locals, one per field."""
+    if not isinstance(call, ast.Call):
+        return None
+    fname = ast.unparse(call.func)
+    if fname.split(".")[-1] == "nullcontext" and len(call.args) <= 1 and not call.keywords:
+        return [], (call.args[0] if call.args else ast.Constant(value=None)), []
+    if not isinstance(call.func, ast.Name):
+        return None
+    callee = resolve(call.func.id)
+    if isinstance(callee, ast.FunctionDef) and any(_is_cm_decorator(d) for d in callee.decorator_list):
+        ys = [n for n in ast.walk(callee) if isinstance(n, (ast.Yield, ast.YieldFrom))]
+        top = [i for i, st in enumerate(_callee_body(callee)) if isinstance(st, ast.Expr) and isinstance(st.value, ast.Yield)]
+        if len(ys) != 1 or len(top) != 1 or any(isinstance(n, (ast.Return, ast.Try)) for n in ast.walk(callee)):
+            return None
+        plain = copy.deepcopy(callee)
+        plain.decorator_list = []
+        rb = _renamed_body(plain, call)
+        if rb is None:
+            return None
+        pre, body = rb
+        i = top[0]
+        return pre + body[:i], body[i].value.value, body[i + 1:]
+    if isinstance(callee, ast.ClassDef):
+        meths = {m.name: m for m in callee.body if isinstance(m, ast.FunctionDef)}
+        if "__enter__" not in meths or "__exit__" not in meths or any(ast.unparse(b) not in ("object",) for b in callee.bases) or callee.decorator_list:
+            return None
+        k = next(_counter)
+        obj = f"_cm{k}"
+        recv = ast.Name(id=obj, ctx=ast.Load())
+
+        def part(m, c, drop_return: bool):
+            if m.decorator_list or any(isinstance(n, (ast.Yield, ast.YieldFrom)) for n in ast.walk(m)):
+                return None
+            rb = _renamed_body(m, c, recv)
+            if rb is None:
+                return None
+            pre, body = rb
+            ret = None
+            if body and isinstance(body[-1], ast.Return):
+                ret = body[-1].value
+                body = body[:-1]
+            if any(isinstance(n, ast.Return) for b in body for n in ast.walk(b)):
+                return None
+            stmts = [_SelfFields(obj).visit(b) for b in pre + body]
+            if ret is not None and not (isinstance(ret, ast.Name) and ret.id == obj):
+                ret = _SelfFields(obj).visit(ret)
+            # the instance itself must not escape (passed on, stored, compared): only its fields are modelled
+            if any(isinstance(n, ast.Name) and n.id == obj for b in stmts for n in ast.walk(b)):
+                return None
+            return stmts, (None if drop_return else ret)
+        entry = []
+        if "__init__" in meths:
+            r = part(meths["__init__"], call, True)
+            if r is None:
+                return None
+            entry += r[0]
+        elif call.args or call.keywords:
+            return None
+        r = part(meths["__enter__"], ast.Call(func=ast.Name(id="_", ctx=ast.Load()), args=[], keywords=[]), False)
+        if r is None:
+            return None
+        entry += r[0]
+        bound = r[1]
+        nones = [ast.Constant(value=None) for _ in meths["__exit__"].args.args[1:]]
+        x = part(meths["__exit__"], ast.Call(func=ast.Name(id="_", ctx=ast.Load()), args=nones, keywords=[]), True)
+        return entry, bound, (x[0] if x is not None else [])
+    return None
+
+
+def inline_context_managers(func, resolve, max_depth: int = 3):
+    """`with CM(..) [as v]: BODY`  ->  <what entering CM does>; [v = <what it hands over>]; BODY; <what leaving it without an exception
+    does>  for the context managers _cm_parts understands (`resolve(name) -> FunctionDef | ClassDef | None` finds them in the module);
+    `with A, B:` is `with A: with B:`;  `with (A if c else B): BODY` is `if c: with A: BODY else: with B: BODY`;  a local bound once to
+    such an expression (`session = A if c else B; with session:`) is read through.  Any other `with` (open(..), locks) stays.  The
+    inlined statements carry the line of the `with` (those of the exit its last line), so that "before / after the block" still reads
+    off the line numbers."""
+    once = {}
+    for n in ast.walk(func):
+        if isinstance(n, ast.Assign) and len(n.targets) == 1 and isinstance(n.targets[0], ast.Name):
+            once.setdefault(n.targets[0].id, []).append(n.value)
+    stores = {}
+    for n in ast.walk(func):
+        if isinstance(n, ast.Name) and isinstance(n.ctx, (ast.Store, ast.Del)):
+            stores[n.id] = stores.get(n.id, 0) + 1
+
+    def expand(stmts, depth):
+        out = []
+        for st in stmts:
+            for fld in ("body", "orelse", "finalbody"):
+                b = getattr(st, fld, None)
+                if isinstance(b, list) and b and isinstance(b[0], ast.stmt):
+                    setattr(st, fld, expand(b, depth))
+            if isinstance(st, ast.Try):
+                for h in st.handlers:
+                    h.body = expand(h.body, depth)
+            if not isinstance(st, ast.With) or depth > max_depth:
+                out.append(st)
+                continue
+            if len(st.items) > 1:
+                inner = ast.copy_location(ast.With(items=st.items[1:], body=st.body), st)
+                st = ast.copy_location(ast.With(items=st.items[:1], body=[inner]), st)
+                out.extend(expand([st], depth))
+                continue
+            item = st.items[0]
+            e = item.context_expr
+            if isinstance(e, ast.Name) and stores.get(e.id) == 1 and len(once.get(e.id, [])) == 1:
+                e = once[e.id][0]
+            if isinstance(e, ast.IfExp):
+                a = ast.copy_location(ast.With(items=[ast.withitem(context_expr=e.body, optional_vars=copy.deepcopy(item.optional_vars))], body=st.body), st)
+                b = ast.copy_location(ast.With(items=[ast.withitem(context_expr=e.orelse, optional_vars=copy.deepcopy(item.optional_vars))], body=copy.deepcopy(st.body)), st)
+                if _cm_parts(e.body, resolve) is not None and _cm_parts(e.orelse, resolve) is not None:
+                    out.append(ast.copy_location(ast.If(test=copy.deepcopy(e.test), body=expand([a], depth + 1), orelse=expand([b], depth + 1)), st))
+                    continue
+            parts = _cm_parts(e, resolve)
+            if parts is None:
+                out.append(st)
+                continue
+            entry, bound, leave = parts
+            if item.optional_vars is not None:
+                if bound is None:
+                    out.append(st)
+                    continue
+                entry = entry + [ast.Assign(targets=[copy.deepcopy(item.optional_vars)], value=bound)]
+            out.extend(_relocate(entry, st) + st.body + _relocate(leave, st, end=True))
+        return out
+    func.body = expand(func.body, 0)
+    ast.fix_missing_locations(func)
+    return func
+
+
+# ------------------------------------------------------------------------------------------------ local helper objects (opt-in pass)
+
+def _dataclass_init(cls: ast.ClassDef):
+    """the constructor @dataclass generates: one parameter per annotated field (defaults / default factories as the parameter's
+    default expression -- evaluated per call, as the generated code does), each stored into the field of the same name"""
+    args, defaults, body = [ast.arg(arg="self")], [], []
+    for st in cls.body:
+        if isinstance(st, ast.AnnAssign) and isinstance(st.target, ast.Name) and "ClassVar" not in ast.unparse(st.annotation):
+            d = st.value
+            if isinstance(d, ast.Call) and ast.unparse(d.func).split(".")[-1] == "field":
+                kw = {k.arg: k.value for k in d.keywords}
+                if "default_factory" in kw:
+                    d = ast.Call(func=copy.deepcopy(kw["default_factory"]), args=[], keywords=[])
+                elif "default" in kw:
+                    d = copy.deepcopy(kw["default"])
+                else:
+                    d = None
+                if kw.get("init") is not None:
+                    return None
+            if d is None and defaults:
+                return None
+            args.append(ast.arg(arg=st.target.id))
+            if d is not None:
+                defaults.append(copy.deepcopy(d))
+            body.append(ast.Assign(targets=[ast.Attribute(value=ast.Name(id="self", ctx=ast.Load()), attr=st.target.id, ctx=ast.Store())], value=ast.Name(id=st.target.id, ctx=ast.Load())))
+    fn = ast.FunctionDef(name="__init__", args=ast.arguments(posonlyargs=[], args=args, kwonlyargs=[], kw_defaults=[], defaults=defaults), body=body or [ast.Pass()], decorator_list=[], lineno=cls.lineno, col_offset=0)
+    return ast.fix_missing_locations(fn)
+
+
+def _procedure_without_early_returns(m: ast.FunctionDef):
+    """a method whose `return`s carry no value, with its guard clauses turned into if / else arms (normalize._tailify) and the -- now
+    trailing -- returns dropped: the same statements in straight-line form;  the method itself when it has no early return"""
+    rets = [n for n in ast.walk(m) if isinstance(n, ast.Return)]
+    if not rets or any(r.value is not None and not (isinstance(r.value, ast.Constant) and r.value.value is None) for r in rets):
+        return m
+    if all(r is m.body[-1] for r in rets):
+        return m
+    t = _tailify(copy.deepcopy(_callee_body(m)))
+    if t is None:
+        return m
+
+    class Drop(ast.NodeTransformer):
+        def visit_Return(self, n):
+            return ast.copy_location(ast.Pass(), n)
+
+        def visit_FunctionDef(self, n):
+            return n
+    new = copy.deepcopy(m)
+    new.body = [Drop().visit(b) for b in t]
+    return ast.fix_missing_locations(new)
+
+
+def inline_local_objects(func, resolve_class, max_depth: int = 4):
+    """A helper OBJECT that lives and dies inside `func` -- `x = C(..)` with C a small class of the module (plain or @dataclass), `x`
+    bound once and used only as `x.method(..)` / `x.field` / `x.property` -- is the bundle of its fields: the constructor and every
+    method called on it are inlined (normalize.inline_stmt_calls with `x` as the receiver) and each field `x.f` becomes the local
+    `x__f`.  What the methods do to the fields then shows up in `func` exactly as if the bookkeeping had been written with locals.
+    Returns a rewritten copy, or `func` itself when no object qualifies / something could not be inlined (an object that escapes,
+    a method with a valued early return, inheritance, __post_init__ ..)."""
+    stores = {}
+    for n in ast.walk(func):
+        if isinstance(n, ast.Name) and isinstance(n.ctx, (ast.Store, ast.Del)):
+            stores[n.id] = stores.get(n.id, 0) + 1
+    params = {a.arg for a in func.args.args + func.args.kwonlyargs}
+    cands = []
+    for n in ast.walk(func):
+        if isinstance(n, ast.Assign) and len(n.targets) == 1 and isinstance(n.targets[0], ast.Name) and isinstance(n.value, ast.Call) and isinstance(n.value.func, ast.Name):
+            x = n.targets[0].id
+            cls = resolve_class(n.value.func.id)
+            if isinstance(cls, ast.ClassDef) and stores.get(x) == 1 and x not in params:
+                cands.append((x, cls))
+    out = func
+    for x, cls in cands:
+        decs = [ast.unparse(d).split("(")[0].split(".")[-1] for d in cls.decorator_list]
+        if any(ast.unparse(b) != "object" for b in cls.bases) or any(d != "dataclass" for d in decs):
+            continue
+        meths = {m.name: m for m in cls.body if isinstance(m, ast.FunctionDef)}
+        if "__post_init__" in meths or any(isinstance(m, ast.AsyncFunctionDef) for m in cls.body):
+            continue
+        if "__init__" not in meths:
+            init = _dataclass_init(cls) if decs else None
+            if init is None:
+                continue
+            meths["__init__"] = init
+        props = {k for k, m in meths.items() if any(ast.unparse(d) == "property" for d in m.decorator_list)}
+        if any(m.decorator_list and k not in props for k, m in meths.items()):
+            continue
+        fields = {t.attr for m in meths.values() for n in ast.walk(m) for t in (n.targets if isinstance(n, ast.Assign) else [n.target] if isinstance(n, (ast.AugAssign, ast.AnnAssign)) else [])
+                  for t in ([t] if not isinstance(t, (ast.Tuple, ast.List)) else t.elts)
+                  if isinstance(t, ast.Attribute) and isinstance(t.value, ast.Name) and t.value.id == m.args.args[0].arg}
+        class_level = {t.id for st in cls.body if isinstance(st, ast.Assign) for t in st.targets if isinstance(t, ast.Name)}
+        if fields & set(meths) or class_level:
+            continue
+        work = copy.deepcopy(out)
+        # every use of x is `x.<something>`
+        parents = {}
+        for n in ast.walk(work):
+            for ch in ast.iter_child_nodes(n):
+                parents[id(ch)] = n
+        uses = [n for n in ast.walk(work) if isinstance(n, ast.Name) and n.id == x and isinstance(n.ctx, ast.Load)]
+        if not uses or any(not (isinstance(parents.get(id(u)), ast.Attribute) and parents[id(u)].value is u) for u in uses):
+            continue
+        plain = {k: _procedure_without_early_returns(m) for k, m in meths.items() if k not in props}
+        for k, m in list(plain.items()):
+            m2 = copy.deepcopy(m)
+            m2.decorator_list = []
+            plain[k] = m2
+        pm = {}
+        for k in props:
+            m2 = copy.deepcopy(meths[k])
+            m2.decorator_list = []
+            pm[k] = m2
+        recv = ast.Name(id=x, ctx=ast.Load())
+
+        # 1. the constructor call -> a statement call of __init__ on x (inlined below like any other method)
+        class Ctor(ast.NodeTransformer):
+            def visit_Assign(self, n):
+                if len(n.targets) == 1 and isinstance(n.targets[0], ast.Name) and n.targets[0].id == x:
+                    c = n.value
+                    call = ast.Call(func=ast.Attribute(value=ast.Name(id=x, ctx=ast.Load()), attr="__init__", ctx=ast.Load()), args=c.args, keywords=c.keywords)
+                    return ast.copy_location(ast.Expr(value=call), n)
+                return n
+        work = Ctor().visit(work)
+        ast.fix_missing_locations(work)
+
+        # 2. property reads -> calls (inlined as expressions below)
+        class Props(ast.NodeTransformer):
+            def visit_Attribute(self, n):
+                self.generic_visit(n)
+                if isinstance(n.value, ast.Name) and n.value.id == x and n.attr in pm and isinstance(n.ctx, ast.Load):
+                    return ast.copy_location(ast.Call(func=n, args=[], keywords=[]), n)
+                return n
+
+        def resolve(call):
+            f = call.func
+            if isinstance(f, ast.Attribute) and isinstance(f.value, ast.Name) and f.value.id == x:
+                m = plain.get(f.attr) or pm.get(f.attr)
+                if m is not None:
+                    return m, ast.Name(id=x, ctx=ast.Load())
+            return None
+        for _ in range(max_depth):
+            before = ast.dump(work)
+            work = Props().visit(work)
+            ast.fix_missing_locations(work)
+            # expression-bodied methods / properties anywhere inside an expression
+            class Exprs(ast.NodeTransformer):
+                def visit_Call(self, n):
+                    self.generic_visit(n)
+                    r = resolve(n)
+                    if r is not None and _simple_callee(r[0]) == "expr":
+                        e = inline_expr(r[0], n, r[1])
+                        if e is not None:
+                            return ast.copy_location(e, n)
+                    return n
+            work = Exprs().visit(work)
+            ast.fix_missing_locations(work)
+            inline_stmt_calls(work, resolve, max_depth)
+            ast.fix_missing_locations(work)
+            if ast.dump(work) == before:
+                break
+        # 3. the fields become locals; anything else still said about x means the object was not fully dissolved
+        left = [n for n in ast.walk(work) if isinstance(n, ast.Attribute) and isinstance(n.value, ast.Name) and n.value.id == x and n.attr not in fields]
+        if left:
+            continue
+        k = next(_counter)
+
+        class Fields(ast.NodeTransformer):
+            def visit_Attribute(self, n):
+                self.generic_visit(n)
+                if isinstance(n.value, ast.Name) and n.value.id == x:
+                    return ast.copy_location(ast.Name(id=f"{x}__{n.attr}", ctx=n.ctx), n)
+                return n
+        work = Fields().visit(work)
+        if any(isinstance(n, ast.Name) and n.id == x for n in ast.walk(work)):
+            continue
+        ast.fix_missing_locations(work)
+        out = work
+    return out
 
 
 def normalize_function(func, tables: dict | None = None, ctables: dict | None = None, cname: str | None = None):
